@@ -56,7 +56,7 @@ Fresh(fam, rule, order, d, outs, P, T, ll, alpha, beta) ==
     [fam |-> fam, rule |-> rule, order |-> order, dims |-> d, outs |-> outs,
      pts |-> IF outs = 0 THEN P ELSE {}, need |-> IF outs = 0 THEN {} ELSE P,
      ep |-> IF outs = 0 THEN ConstFn(P, -2) ELSE << >>,
-     tens |-> T, upd |-> {}, lim |-> ll, con |-> FALSE, init |-> {}, park |-> << >>, parkT |-> {}, initT |-> {}, obase |-> 0,
+     tens |-> T, upd |-> {}, lim |-> ll, con |-> FALSE, init |-> {}, park |-> << >>, parkT |-> {}, initT |-> {}, obase |-> 0, orph |-> FALSE,
      ta |-> <<>>, tb |-> <<>>, conf |-> <<>>, alpha |-> alpha, beta |-> beta]
 
 \* a: [fam, dims, outs, depth, type, rule, aw, ll, order, alpha, beta]
@@ -257,6 +257,27 @@ LargestConnected(g, current, C) ==
         start == current \cup roots
     IN IF start = {} THEN {} ELSE ConnGrow(g, start, start, C) \ current
 
+\* The library decides connectivity from the grid's side when a batch is promoted and from the sample's side when a
+\* single sample arrives; for hierarchies with step-parents (semi-localp, localp-boundary, pwc) and for the wavelet
+\* level-0 block the two views differ for some pairs.  Every promotion lies between the closure under "related in
+\* both views" and the closure under "related in either view"; when the two coincide the promoted set is exact.
+RelatedBoth(g, p, q) == q \in Relatives(g, p) /\ p \in Relatives(g, q)
+RelatedEither(g, p, q) == q \in Relatives(g, p) \/ p \in Relatives(g, q)
+RECURSIVE ConnGrowBoth(_, _, _)
+ConnGrowBoth(g, total, C) ==
+    LET add == {q \in C \ total : \E p \in total : RelatedBoth(g, p, q)}
+    IN IF add = {} THEN total ELSE ConnGrowBoth(g, total \cup add, C)
+RECURSIVE ConnGrowEither(_, _, _)
+ConnGrowEither(g, total, C) ==
+    LET add == {q \in C \ total : \E p \in total : RelatedEither(g, p, q)}
+    IN IF add = {} THEN total ELSE ConnGrowEither(g, total \cup add, C)
+StrongConnected(g, current, C) ==
+    LET start == current \cup {p \in C \ current : IsLevelZero(g, p)}
+    IN IF start = {} THEN {} ELSE ConnGrowBoth(g, start, C) \ current
+WeakConnected(g, current, C) ==
+    LET start == current \cup {p \in C \ current : IsLevelZero(g, p)}
+    IN IF start = {} THEN {} ELSE ConnGrowEither(g, start, C) \ current
+
 \* the samples delivered so far that are admissible join the grid, the rest stays parked (C09)
 Promote(g, D) ==
     \* D: function point -> epoch with all parked samples including the new ones
@@ -268,7 +289,8 @@ Promote(g, D) ==
        ELSE IF IsLocal(g) THEN
            LET N == LargestConnected(g, g.pts, C)
            IN [g EXCEPT !.pts = g.pts \cup N, !.ep = [p \in g.pts \cup N |-> IF p \in N THEN D[p] ELSE g.ep[p]],
-                        !.park = Restrict(D, C \ N), !.init = g.init \ C]
+                        !.park = Restrict(D, C \ N), !.init = g.init \ C,
+                        !.orph = g.orph \/ \E p \in N : ~(AllParents(g, p) \subseteq g.pts \cup N)]
        ELSE \* global / fourier: whole tensors
            LET TT == g.parkT \cup {LVec(g, p) : p \in C}
                complete == {t \in TT : DeltaPoints(g, t) \subseteq C}
